@@ -1,5 +1,7 @@
 (* C01 — The memory map tells the truth about the hardware, end to end.
-   Statements only; proofs in Proofs/HierMap.v (the maps of a hierarchy), Proofs/HierCsr.v (CSR trees).
+   Statements only; proofs in Proofs/HierMap.v (the maps of a hierarchy), Proofs/HierCsr.v (CSR trees),
+   Proofs/HierWb.v (the Wishbone machine), Proofs/HierWb2.v (maps of a Wishbone hierarchy), HierWb3.v (from the
+   root map's windows to the root decoder's selection), HierWb4.v (reach_iff_decode through SRAMs and bridges).
 
    Reading guide (Model/Hierarchy.v).  A hierarchy is syntax: `csrnode` = csr.Multiplexer over
    registers (with the add_resource()/align_to() calls made on its map) | csr.Decoder over csrnodes
@@ -15,8 +17,9 @@
    `csr_hw n = Ok h`), and all_resources() does not raise (`all_resources m = Ok l`, as in C03). *)
 From Coq Require Import ZArith List Bool Lia.
 From Soc Require Import Lib.Res Lib.Bits Model.MemoryMap Model.Hierarchy Model.MuxSpec
-  Proofs.LookupWf Proofs.HierMap Proofs.HierCsr Proofs.HierInert Proofs.HierWf Proofs.HierWb.
-From Soc Require Model.CsrDecoder Model.Mux Model.WbDecoder.
+  Proofs.LookupWf Proofs.HierMap Proofs.HierCsr Proofs.HierInert Proofs.HierWf Proofs.HierWb
+  Proofs.HierWb2 Proofs.HierWb3 Proofs.HierWb4.
+From Soc Require Model.CsrDecoder Model.Mux Model.WbDecoder Proofs.WbDecoder.
 Import ListNotations.
 Open Scope Z_scope.
 
@@ -89,33 +92,106 @@ Print Assumptions C01_csr_hw_wellformed.
 
 (* ---- rung 2: the Wishbone layer (wishbone.Decoder over WishboneSRAM / WishboneCSRBridge over CSR trees) ----
 
-   PROVED for the Wishbone layer: the trace theorem below, on the cycle-exact machine `wb_run` (composition of
-   Model/WbDecoder.v, Sram.v, WbCsrBridge.v and the CSR trees), with the premise stated on the HARDWARE
-   (`unselected`: cyc low, or no Case pattern of the root decoder matches the word address).
+   Reading guide.  `wbroot_map r` is the root decoder's memory map, built by the same add_window() calls
+   (granularity units, window number k = the k-th add()); `wbroot_hw r` the hardware: the decoder's
+   configuration `wh_cfg h` (Model/WbDecoder.v; each subordinate carries the range add() returned, READ OFF THE
+   MAP) and the subordinates' hardware `wh_subs h`; `wreach h ga` routing read off the hardware only, for the
+   granule address ga = word * 2^gbits + lane: the root Switch's first matching Case pattern, the word address
+   truncated to the subordinate's width, then SRAM row * lanes + lane, or the bridge's CSR address
+   Cat(lane, adr) and rung 1's `creach` below the bridge.
 
-   NOT PROVED (full statements; the correspondence engine `hier` checks both on every generated hierarchy and
-   every address: the model's `reach` against decode_address()/find_resource() of the real root map, and the
-   oracle the real hardware against the real map):
+   Domain (`wb_dom r`, Proofs/HierWb2.v): the root's addr_width is not negative (wishbone.Signature checks it,
+   the model does not); every add() is either dense (sparse=False) between equal geometries (subordinate data
+   width = root data width, subordinate granularity = root granularity; for a bridge: the CSR data width), or
+   sparse (sparse=True) under a root whose granularity is its data width (gbits = 0) with a subordinate whose
+   granularity is its data width (what add() demands of a sparse subordinate); an explicit address is a
+   multiple of the window size 2^addr_width of the subordinate's map (note N2); the tree behind a bridge is in
+   rung 1's domain `csr_dom`.  This is the whole domain the correspondence engine `hier` generates.  "Every window is at least one word wide" is NOT assumed: it is
+   derived from the constructors' own checks (Proofs/HierWb3.v sub_geom).  Everything else is whatever the
+   constructors accept (`wbroot_map r = Ok m`, `wbroot_hw r = Ok h`, `all_resources m = Ok l`).
 
-     Theorem C01_wb_reach_iff_decode : forall r m h l, wb_dom r ->
-       wbroot_map r = Ok m -> wbroot_hw r = Ok h -> all_resources m = Ok l ->
-       forall ga, 0 <= ga < 2 ^ (wr_aw r + wbroot_gbits r) ->
-       forall id off, wreach h ga = Some (id, off) <->
-         decode_address m ga = Some id /\
-         exists i, In i l /\ i_res i = id /\ i_start i <= ga < i_end i /\ off = ga - i_start i.
-     (wb_dom r: dense windows between equal granularities, explicit addresses multiples of the window size,
-      csr_dom of every tree behind a bridge, every window at least one word wide.)
+   PROVED below: C01_wb_reach_iff_decode, C01_wb_reach_iff_find, C01_wb_unassigned_iff_unreached (routing, SRAM
+   and bridge leaves alike), C01_wb_cfg_in_domain (the decoder configuration read off the map is inside the
+   domain of C07's selection theorems), C01_wb_outside_windows_inert (outside every window of the MAP => the
+   HARDWARE selects nobody) and the combined trace corollary C01_wb_unselected_inert.
 
-     Theorem C01_wb_outside_windows_inert : forall r m h, wb_dom r -> wbroot_map r = Ok m -> wbroot_hw r = Ok h ->
-       forall q, 0 <= adr q < 2 ^ wr_aw r ->
-       (forall wn c, In (wn, c) (m_wins m) ->
-          ~ (w_start wn <= adr q * 2 ^ wbroot_gbits r < w_start wn + 2 ^ m_aw c)) ->
-       unselected h q.
-     (that is C07's selected_none_iff once `Proofs.WbDecoder.dom (wh_cfg h)` is derived from the map's
-      construction the way Proofs/HierCsr.v derives the CSR decoder's facts from add_windows_spec.)
+   NOT PROVED (the correspondence engine `hier` checks the model's `reach` against decode_address() /
+   find_resource() of the real root map, and the oracle the real hardware against the real map, on every
+   generated hierarchy and address):
+     - outside `wb_dom`: sparse windows under gbits > 0 (one subordinate word then occupies a whole root word
+       while the root map gives it one granule address; `wreach` is not defined for them and the generator does
+       not make them), dense windows between different granularities (ratio > 1);
+     - the cycle-exact counterpart of reach (which leaf is strobed in which cycle of a Wishbone transfer through
+       a bridge): C07 request relay + C10 transfer + C15 are proved per component, their composition over the
+       hierarchy machine `wb_run` is proved only for the unselected case (the theorems at the end of this
+       section). *)
 
-   What is missing is therefore exactly the step from the root MAP's windows to the root decoder's selection
-   and the offset arithmetic through a bridge / into an SRAM; everything below a bridge is rung 1. *)
+(* reach_iff_decode: a granule address selects granule / chunk `off` of resource `id` in the hardware iff the
+   root map decodes the address to `id` and reports it `off` addresses above that resource's start *)
+Theorem C01_wb_reach_iff_decode : forall r m h l, wb_dom r ->
+  wbroot_map r = Ok m -> wbroot_hw r = Ok h -> all_resources m = Ok l ->
+  forall ga, 0 <= ga < 2 ^ (wr_aw r + wbroot_gbits r) ->
+  forall id off, wreach h ga = Some (id, off) <->
+    decode_address m ga = Some id /\
+    exists i, In i l /\ i_res i = id /\ i_start i <= ga < i_end i /\ off = ga - i_start i.
+Proof. exact wb_reach_iff_decode. Qed.
+Print Assumptions C01_wb_reach_iff_decode.
+
+(* the same with find_resource(), every resource object occurring once in the hierarchy *)
+Theorem C01_wb_reach_iff_find : forall r m h l, wb_dom r ->
+  wbroot_map r = Ok m -> wbroot_hw r = Ok h -> all_resources m = Ok l -> NoDup (map i_res l) ->
+  forall ga, 0 <= ga < 2 ^ (wr_aw r + wbroot_gbits r) ->
+  forall id off, wreach h ga = Some (id, off) <->
+    decode_address m ga = Some id /\ exists i, find_resource m id = Ok i /\ off = ga - i_start i.
+Proof. exact wb_reach_iff_find. Qed.
+Print Assumptions C01_wb_reach_iff_find.
+
+(* a granule address reaches nothing in the hardware iff the root map leaves it unassigned *)
+Theorem C01_wb_unassigned_iff_unreached : forall r m h l, wb_dom r ->
+  wbroot_map r = Ok m -> wbroot_hw r = Ok h -> all_resources m = Ok l ->
+  forall ga, 0 <= ga < 2 ^ (wr_aw r + wbroot_gbits r) -> (decode_address m ga = None <-> wreach h ga = None).
+Proof. exact wb_unassigned_iff_unreached. Qed.
+Print Assumptions C01_wb_unassigned_iff_unreached.
+
+(* the configuration of the root decoder, read off the map the add() calls built, meets the premise of C07's
+   selection theorems (ratio-1 windows of at least one word, aligned to their size, pairwise disjoint, inside
+   the map): cyc_iff_window / selected_none_iff / request relay apply to the root of every hierarchy *)
+Theorem C01_wb_cfg_in_domain : forall r m h, wb_dom r -> wbroot_map r = Ok m -> wbroot_hw r = Ok h ->
+  Proofs.WbDecoder.dom (wh_cfg h).
+Proof. exact wbroot_cfg_dom. Qed.
+Print Assumptions C01_wb_cfg_in_domain.
+
+(* a word whose first granule lies outside every window of the root MAP selects no subordinate in the HARDWARE *)
+Theorem C01_wb_outside_windows_inert : forall r m h, wb_dom r -> wbroot_map r = Ok m -> wbroot_hw r = Ok h ->
+  forall q, 0 <= WbDecoder.adr q < 2 ^ wr_aw r ->
+  (forall wn c, In (wn, c) (m_wins m) ->
+     ~ (w_start wn <= WbDecoder.adr q * 2 ^ wbroot_gbits r < w_start wn + 2 ^ m_aw c)) ->
+  unselected h q.
+Proof. exact wb_outside_windows_unselected. Qed.
+Print Assumptions C01_wb_outside_windows_inert.
+
+(* the combined corollary, premise on the MAP: from the reset state and for traces of any length in which every
+   request either has cyc low or addresses a word outside every window of the root map, the root never
+   acknowledges, no register below any bridge sees r_stb, no SRAM sees cyc, and every SRAM keeps its contents.
+   (wb_dom_subs: csr_dom and csr_widths of every tree behind a bridge.) *)
+Theorem C01_wb_unselected_inert : forall r m h, wb_dom r -> wb_dom_subs (wr_subs r) ->
+  wbroot_map r = Ok m -> wbroot_hw r = Ok h -> forall tr,
+  (forall q rv, In (q, rv) tr ->
+     WbDecoder.cyc q = false \/
+     (0 <= WbDecoder.adr q < 2 ^ wr_aw r /\
+      forall wn c, In (wn, c) (m_wins m) ->
+        ~ (w_start wn <= WbDecoder.adr q * 2 ^ wbroot_gbits r < w_start wn + 2 ^ m_aw c))) ->
+  forall o, In o (wb_run h (map winit (wh_subs h)) tr) ->
+    wo_ack o = false /\
+    (forall lo, In lo (wo_leaves o) -> lo_rstb lo = false) /\
+    (forall x, In x (wo_srams o) -> snd (fst x) = false) /\
+    map (fun x : Z * bool * list Z => snd x) (wo_srams o) = concat (map sram_rows (map winit (wh_subs h))).
+Proof. exact wb_outside_windows_inert. Qed.
+Print Assumptions C01_wb_unselected_inert.
+
+(* The same two trace theorems with the premise stated on the HARDWARE (`unselected`: cyc low, or no Case
+   pattern of the root decoder matches the word address); they need no domain beyond well-formed parts, and
+   C01_wb_unselected_inert above is their corollary through C01_wb_outside_windows_inert. *)
 
 (* While no request reaches a subordinate, from the reset state and for traces of any length: the root never
    acknowledges, no register below any bridge sees r_stb, no SRAM sees cyc, and every SRAM's contents stay
@@ -254,4 +330,62 @@ Proof.
     destruct (wbroot_hw ex_wb) as [h|] eqn:Eh; [|vm_compute in Eh; discriminate].
     exists m, h. vm_compute in Em. injection Em as <-. vm_compute in Eh. injection Eh as <-.
     split; [reflexivity|]. split; [reflexivity|]. vm_compute. repeat split; reflexivity.
+Qed.
+
+(* ex_wb is inside rung 2's domain, its root map has the windows [0, 4) and [8, 12) (2 address bits each); word 7
+   (granule 14) lies outside both: the premise of C01_wb_outside_windows_inert holds of it, and the conclusions
+   of C01_wb_reach_iff_decode can be read off C01_nonvacuous_wb above (e.g. granule 11 = word 5, lane 1 reaches
+   chunk 0 of register 1 behind the bridge; the map reports register 1 at [11, 12)) *)
+Example C01_nonvacuous_wb_dom : wb_dom ex_wb.
+Proof.
+  split; [cbn; lia|]. repeat constructor; cbn; try (left; repeat split; reflexivity); try exact I;
+    intros z H; try discriminate.
+  injection H as <-. reflexivity.
+Qed.
+
+Example C01_nonvacuous_wb_outside :
+  exists m h l, wbroot_map ex_wb = Ok m /\ wbroot_hw ex_wb = Ok h /\ all_resources m = Ok l /\
+    map (fun i => (i_res i, i_start i, i_end i)) l = [(1000, 0, 4); (0, 8, 10); (1, 11, 12)] /\
+    map (fun wc : winent * mmap => (w_start (fst wc), m_aw (snd wc))) (m_wins m) = [(0, 2); (8, 2)] /\
+    wreach h 11 = Some (1, 0) /\ decode_address m 11 = Some 1 /\
+    0 <= WbDecoder.adr (ex_req 7) < 2 ^ wr_aw ex_wb /\
+    (forall wn c, In (wn, c) (m_wins m) ->
+       ~ (w_start wn <= WbDecoder.adr (ex_req 7) * 2 ^ wbroot_gbits ex_wb < w_start wn + 2 ^ m_aw c)).
+Proof.
+  destruct (wbroot_map ex_wb) as [m|] eqn:Em; [|vm_compute in Em; discriminate].
+  destruct (wbroot_hw ex_wb) as [h|] eqn:Eh; [|vm_compute in Eh; discriminate].
+  destruct (all_resources m) as [l|] eqn:El;
+    [|vm_compute in Em; injection Em as <-; vm_compute in El; discriminate].
+  exists m, h, l. vm_compute in Em. injection Em as <-. vm_compute in Eh. injection Eh as <-.
+  vm_compute in El. injection El as <-.
+  split; [reflexivity|]. split; [reflexivity|]. split; [reflexivity|]. split; [reflexivity|].
+  split; [reflexivity|]. split; [vm_compute; reflexivity|]. split; [vm_compute; reflexivity|].
+  split; [vm_compute; split; [discriminate|reflexivity]|].
+  intros wn c [H|[H|[]]]; injection H as <- <-; vm_compute; intros [H1 H2]; try (apply H1; reflexivity);
+    discriminate.
+Qed.
+
+(* a sparse window: a 16-bit root with granularity 16 (gbits = 0) over an 8-bit, 4-byte SRAM added with
+   sparse=True after align_to(2): each SRAM byte occupies one root word, the map and the hardware agree *)
+Definition ex_wb_sparse : wbroot :=
+  {| wr_aw := 3; wr_dw := 16; wr_gran := 16; wr_al := 0;
+     wr_subs := [({| o_aligns := [2]; o_name := Some (NStr 32); o_addr := VInt 4 |}, true,
+                  SramLeaf 2000 4 8 8 true [17; 34; 51; 68])] |}.
+
+Example C01_nonvacuous_wb_sparse :
+  wb_dom ex_wb_sparse /\
+  exists m h, wbroot_map ex_wb_sparse = Ok m /\ wbroot_hw ex_wb_sparse = Ok h /\
+    map (decode_address m) (map Z.of_nat (seq 0 8)) =
+      [None; None; None; None; Some 2000; Some 2000; Some 2000; Some 2000] /\
+    map (wreach h) (map Z.of_nat (seq 0 8)) =
+      [None; None; None; None; Some (2000, 0); Some (2000, 1); Some (2000, 2); Some (2000, 3)].
+Proof.
+  split.
+  - split; [cbn; lia|]. constructor; [|constructor].
+    split; [right; cbn; repeat split; reflexivity|].
+    split; [cbn; intros z H; injection H as <-; reflexivity|exact I].
+  - destruct (wbroot_map ex_wb_sparse) as [m|] eqn:Em; [|vm_compute in Em; discriminate].
+    destruct (wbroot_hw ex_wb_sparse) as [h|] eqn:Eh; [|vm_compute in Eh; discriminate].
+    exists m, h. vm_compute in Em. injection Em as <-. vm_compute in Eh. injection Eh as <-.
+    split; [reflexivity|]. split; [reflexivity|]. vm_compute. split; reflexivity.
 Qed.
